@@ -202,7 +202,10 @@ func (t Text) TrimWcwidth(wmax int) Text {
 	var newt Text
 	for _, seg := range t {
 		w := wcwidth.Of(seg.Text)
-		if w >= wmax {
+		// A segment that fits exactly doesn't end the loop: the next segment
+		// may start with zero-width characters that still belong to the
+		// largest prefix.
+		if w > wmax {
 			// Don't add an empty segment.
 			if trimmed := wcwidth.Trim(seg.Text, wmax); trimmed != "" {
 				newt = append(newt, &Segment{seg.Style, trimmed})
